@@ -79,6 +79,9 @@ def code_tie(hints: list, reg: Registry, preds: dict, conf_names=('default', 'no
     return n, diffs, skipped
 
 
+HYPS = {'checked': 0, 'failed': 0}     # side conditions of the Lean theorems, decided by the driver per case
+
+
 def model_run(cases: list, reg: Registry) -> list:
     """cases = [(is_random, [draws], hint_model, obj_model)] -> [(sat, [(chk, evalresult) per draw])]"""
     ws = sexp(reg.world_sexp())
@@ -96,5 +99,8 @@ def model_run(cases: list, reg: Registry) -> list:
         if v[0] != 'ok':
             out.append(None)
             continue
-        out.append((v[1][0] == 'true', [(c == 'true', e) for c, e in v[1][1:]]))
+        HYPS['checked'] += 1
+        if v[1][1] != 'true':
+            HYPS['failed'] += 1
+        out.append((v[1][0] == 'true', [(c == 'true', e) for c, e in v[1][2:]]))
     return out
